@@ -129,6 +129,8 @@ ProjEnv(m) ==
   [ books   |-> [a \in 1..Len(m.books) |-> Proj(m.books[a])],
     env_orders |-> [a \in 1..Len(m.books) |-> Proj(m.books[a]).orders],   \* the environment's own order / trade getters
     env_trades |-> [a \in 1..Len(m.books) |-> Proj(m.books[a]).trades],
+    env_order_by_id |-> [a \in 1..Len(m.books) |-> Proj(m.books[a]).orders],            \* order(id) for every id
+    env_statuses |-> [a \in 1..Len(m.books) |-> [i \in 1..Len(m.books[a].orders) |-> m.books[a].orders[i].status]],   \* order_status(id)
     now     |-> m.books[1].now,
     pending |-> [k \in 1..Len(m.pending) |-> InstrTuple(m.pending[k])],
     l2      |-> m.l2,
